@@ -947,3 +947,91 @@ func RecvNamed2(fn *ssa.Function) *types.Named {
 	}
 	return NamedOf(fn.Signature.Recv().Type())
 }
+
+// FwdInvoke is an invocation of an interface method made by fn, directly or
+// through a same-package helper that invokes it on one of its parameters
+// (`prepareData(c.Keys)` for `c.Keys.(Preparable).Prepare()`): Recv and Args are
+// expressed in fn's frame (helper parameters replaced by the call-site arguments).
+type FwdInvoke struct {
+	Recv  ssa.Value
+	Args  []ssa.Value
+	At    ssa.Instruction     // the instruction in fn (the invoke or the helper call)
+	Inner ssa.CallInstruction // the invoke itself
+}
+
+// paramOrigin: the parameter v derives from through interface conversions and type assertions.
+func paramOrigin(v ssa.Value) *ssa.Parameter {
+	for d := 0; d < 8; d++ {
+		switch x := v.(type) {
+		case *ssa.Parameter:
+			return x
+		case *ssa.TypeAssert:
+			v = x.X
+		case *ssa.Extract:
+			v = x.Tuple
+		case *ssa.ChangeInterface:
+			v = x.X
+		case *ssa.MakeInterface:
+			v = x.X
+		case *ssa.ChangeType:
+			v = x.X
+		default:
+			return nil
+		}
+	}
+	return nil
+}
+
+// ForwardedInvokes lists the invocations of interface method `method` made by fn.
+func ForwardedInvokes(fn *ssa.Function, method string) []FwdInvoke {
+	var out []FwdInvoke
+	for _, call := range Calls(fn) {
+		cc := call.Common()
+		if cc.IsInvoke() {
+			if cc.Method.Name() == method {
+				out = append(out, FwdInvoke{Recv: cc.Value, Args: cc.Args, At: call.(ssa.Instruction), Inner: call})
+			}
+			continue
+		}
+		h := StaticFn(call)
+		if h == nil || h.Blocks == nil || h.Pkg == nil || fn.Pkg == nil || h.Pkg != fn.Pkg || h == fn {
+			continue
+		}
+		if _, isDefer := call.(*ssa.Defer); isDefer {
+			continue
+		}
+		idxOf := func(p *ssa.Parameter) int {
+			for i, q := range h.Params {
+				if q == p {
+					return i
+				}
+			}
+			return -1
+		}
+		for _, ic := range Calls(h) {
+			icc := ic.Common()
+			if !icc.IsInvoke() || icc.Method.Name() != method {
+				continue
+			}
+			rp := paramOrigin(icc.Value)
+			if rp == nil {
+				continue
+			}
+			ri := idxOf(rp)
+			if ri < 0 || ri >= len(cc.Args) {
+				continue
+			}
+			args := make([]ssa.Value, len(icc.Args))
+			for k, a := range icc.Args {
+				args[k] = a
+				if ap, ok := a.(*ssa.Parameter); ok {
+					if ai := idxOf(ap); ai >= 0 && ai < len(cc.Args) {
+						args[k] = cc.Args[ai]
+					}
+				}
+			}
+			out = append(out, FwdInvoke{Recv: cc.Args[ri], Args: args, At: call.(ssa.Instruction), Inner: ic})
+		}
+	}
+	return out
+}
